@@ -7,5 +7,5 @@ export CARGO_TARGET_DIR="$ROOT/harness/target"
 cd "$ROOT/harness"
 cargo build --offline -p vcheck -p sched -p sendsync --profile checked
 cargo build --offline -p drain
-cargo build --offline -p drain --release
+cargo build --offline -p drain -p vcheck --release
 (cd /repo && cargo build --offline --release --example multi-thread --target-dir "$CARGO_TARGET_DIR/repo-example")
